@@ -194,12 +194,90 @@ func R20Serialise(c *Ctx) {
 		c.R.Anchor(rule, "hclwrite.(Tokens).WriteTo")
 	} else {
 		fname := FuncShort(wt)
+		// a helper that writes nothing but spaces: every Write in it takes a sub-slice of a parameter that every
+		// caller binds to a buffer filled with ' '. Returns the parameter index of its space count (an int
+		// parameter that initialises the countdown) or -1.
+		type spaceHelper struct {
+			bufIdx, cntIdx int
+		}
+		helpers := map[*ssa.Function]*spaceHelper{}
+		isSpaceWriter := func(h *ssa.Function) *spaceHelper {
+			if sh, ok := helpers[h]; ok {
+				return sh
+			}
+			helpers[h] = nil
+			if h.Blocks == nil || FuncPkgPathOf(h) != PkgHclwrite {
+				return nil
+			}
+			res := &spaceHelper{-1, -1}
+			nW := 0
+			okAll := true
+			EachCall(h, func(ci ssa.CallInstruction) {
+				call, ok := ci.(*ssa.Call)
+				if !ok || !call.Call.IsInvoke() || call.Call.Method.Name() != "Write" {
+					return
+				}
+				nW++
+				sl, ok := call.Call.Args[0].(*ssa.Slice)
+				if !ok {
+					okAll = false
+					return
+				}
+				pp := ParamOf(sl.X)
+				if pp == nil || pp.Parent() != h {
+					okAll = false
+					return
+				}
+				for i, q := range h.Params {
+					if q == pp {
+						res.bufIdx = i
+					}
+				}
+			})
+			if !okAll || nW == 0 || res.bufIdx < 0 {
+				return nil
+			}
+			for i, q := range h.Params {
+				if b, ok := q.Type().Underlying().(*types.Basic); ok && b.Kind() == types.Int {
+					res.cntIdx = i
+				}
+			}
+			helpers[h] = res
+			return res
+		}
 		nSp, nBy := 0, 0
 		var byCall, spCall *ssa.Call
+		countFromSpacesBefore := false
+		isSpacesBeforeLoad := func(v ssa.Value) bool {
+			if u, ok := v.(*ssa.UnOp); ok && u.Op == token.MUL {
+				if t, f, _, ok := FieldOf(u.X); ok && strings.HasSuffix(t, "hclwrite.Token") && f == "SpacesBefore" {
+					return true
+				}
+			}
+			return false
+		}
 		for _, b := range wt.Blocks {
 			for _, in := range b.Instrs {
 				call, ok := in.(*ssa.Call)
-				if !ok || !call.Call.IsInvoke() || call.Call.Method.Name() != "Write" {
+				if !ok {
+					continue
+				}
+				if callee := call.Call.StaticCallee(); callee != nil && !call.Call.IsInvoke() {
+					if sh := isSpaceWriter(callee); sh != nil {
+						if sh.bufIdx < len(call.Call.Args) && isSpaceBufferValue(call.Call.Args[sh.bufIdx]) {
+							nSp++
+							spCall = call
+							if sh.cntIdx >= 0 && sh.cntIdx < len(call.Call.Args) && isSpacesBeforeLoad(call.Call.Args[sh.cntIdx]) {
+								countFromSpacesBefore = true
+							}
+							c.R.Ok(rule, fname, "spaces written through "+callee.Name(), c.pos(call.Pos()), "the helper writes only sub-slices of the all-spaces buffer it is given", true)
+						} else {
+							c.R.Bad(rule, fname, "spaces written through "+callee.Name(), c.pos(call.Pos()), "the helper's buffer argument is not a buffer filled with the constant ' '")
+						}
+						continue
+					}
+				}
+				if !call.Call.IsInvoke() || call.Call.Method.Name() != "Write" {
 					continue
 				}
 				arg := call.Call.Args[0]
@@ -225,7 +303,6 @@ func R20Serialise(c *Ctx) {
 		if nBy != 1 || nSp < 1 {
 			c.R.Bad(rule, fname, "one bytes-write per token after its spaces", c.pos(wt.Pos()), "expected one write of token.Bytes and at least one write of spaces per token, found "+itoa(nBy)+" / "+itoa(nSp))
 		} else {
-			// order: the spaces loop lies between the loop head and the bytes write: the bytes write does not reach the spaces write within the same iteration
 			loops := naturalLoops(wt)
 			var outer *natLoop
 			for _, l := range loops {
@@ -264,21 +341,20 @@ func R20Serialise(c *Ctx) {
 				}
 				return false
 			}
-			if outer != nil && outer.body[spCall.Block()] && !reachWithin(byCall.Block(), spCall.Block()) && reachWithin(spCall.Block(), byCall.Block()) {
+			sameBlockBefore := spCall.Block() == byCall.Block() && InstrBlockIndex(spCall) < InstrBlockIndex(byCall)
+			if outer != nil && outer.body[spCall.Block()] && (sameBlockBefore || (!reachWithin(byCall.Block(), spCall.Block()) && reachWithin(spCall.Block(), byCall.Block()))) {
 				c.R.Ok(rule, fname, "spaces before bytes within one iteration", c.pos(byCall.Pos()), "in each iteration the spaces are written first, then the token's bytes", true)
 			} else {
 				c.R.Bad(rule, fname, "spaces before bytes within one iteration", c.pos(byCall.Pos()), "the order (spaces, then bytes) per token is not kept")
 			}
 			// the spaces count starts from token.SpacesBefore
-			init := false
+			init := countFromSpacesBefore
 			for _, b := range wt.Blocks {
 				for _, in := range b.Instrs {
 					if ph, ok := in.(*ssa.Phi); ok && outer != nil && outer.body[b] {
 						for _, e := range ph.Edges {
-							if u, ok := e.(*ssa.UnOp); ok && u.Op == token.MUL {
-								if t, f, _, ok := FieldOf(u.X); ok && strings.HasSuffix(t, "hclwrite.Token") && f == "SpacesBefore" {
-									init = true
-								}
+							if isSpacesBeforeLoad(e) {
+								init = true
 							}
 						}
 					}
@@ -436,6 +512,19 @@ func rangeByte(v ssa.Value, which string) bool {
 	}
 	t3, n3, _, ok := FieldOf(base2)
 	return ok && n3 == "Range" && strings.HasSuffix(t3, "hclsyntax.Token")
+}
+
+// isSpaceBufferValue: v itself is the local buffer filled with ' ' (possibly through the [:] that make() lowers to).
+func isSpaceBufferValue(v ssa.Value) bool {
+	switch x := v.(type) {
+	case *ssa.MakeSlice:
+		return onlySpaceStores(x, nil)
+	case *ssa.Slice:
+		if al, ok := x.X.(*ssa.Alloc); ok {
+			return onlySpaceStores(al, x)
+		}
+	}
+	return false
 }
 
 // isSpaceBuffer: v is a sub-slice of a local byte buffer whose only element stores are the constant ' '.
